@@ -229,7 +229,14 @@ class C15(runner.Prop):
         for k in ks:
             runner.journal({'t': case['t'], 'op': name, 'k': k})
             before = rc0
-            T.arm(k)
+            # the class of the injected exception rotates through Boom and Boom-derived TypeError / ValueError /
+            # RuntimeError (a built-in type native code might catch and reinterpret); a TypeError from a key
+            # *comparison* (__lt__, and __eq__, which sorting also calls) is the documented "incomparable" signal, so
+            # those positions keep the plain class
+            exc_cls = U.BOOM_CLASSES[(k + len(name) + len(case['t'])) % len(U.BOOM_CLASSES)]
+            if exc_cls is U.BoomTypeError and (k > len(kinds) or kinds[k - 1] in ('key_lt', 'key_eq')):
+                exc_cls = U.Boom
+            T.arm(k, exc_cls=exc_cls)
             res = None
             returned = False
             failure = None
